@@ -108,16 +108,17 @@ func (s *cstore) StoreLogs(ls []*raft.Log) error {
 func (s *cstore) StoreLog(l *raft.Log) error { return s.StoreLogs([]*raft.Log{l}) }
 
 type cnode struct {
-	id     int
-	addr   raft.ServerAddress
-	st     *cstore
-	snaps  *snapStore
-	fsm    *cfsm
-	r      *raft.Raft
-	trans  *raft.InmemTransport
-	life   int
-	up     bool
-	notify chan bool
+	slowClock bool // this server's timeouts are 10x longer (a slow clock; C09 assumes nothing about clocks)
+	id        int
+	addr      raft.ServerAddress
+	st        *cstore
+	snaps     *snapStore
+	fsm       *cfsm
+	r         *raft.Raft
+	trans     *raft.InmemTransport
+	life      int
+	up        bool
+	notify    chan bool
 }
 
 type cluster struct {
@@ -127,6 +128,8 @@ type cluster struct {
 	inj     *raft.InmemTransport
 	mu      sync.Mutex
 	blocked map[[2]int]bool // directed pairs that drop everything
+	holdMs  map[[2]int]int  // responses on this directed pair (responder, requester) are held this long
+	litmus  bool
 	delayMs int
 	dropPct int
 	dupPct  int
@@ -169,6 +172,16 @@ func (c *cluster) conf(i int, n *cnode) *raft.Config {
 	conf.HeartbeatTimeout = 50 * time.Millisecond
 	conf.ElectionTimeout = 50 * time.Millisecond
 	conf.LeaderLeaseTimeout = 50 * time.Millisecond
+	if c.litmus {
+		conf.HeartbeatTimeout = 100 * time.Millisecond
+		conf.ElectionTimeout = 100 * time.Millisecond
+		conf.LeaderLeaseTimeout = 100 * time.Millisecond
+	}
+	if n.slowClock {
+		conf.HeartbeatTimeout = 300 * time.Millisecond
+		conf.ElectionTimeout = 300 * time.Millisecond
+		conf.LeaderLeaseTimeout = 300 * time.Millisecond
+	}
 	conf.CommitTimeout = 5 * time.Millisecond
 	conf.SnapshotInterval = 3600 * time.Second
 	conf.SnapshotThreshold = 1 << 30
@@ -191,6 +204,7 @@ func (c *cluster) forward(from, to int, rpc raft.RPC) {
 	c.mu.Lock()
 	blocked := c.blocked[[2]int{from, to}] || c.stopped
 	back := c.blocked[[2]int{to, from}]
+	hold := c.holdMs[[2]int{to, from}]
 	delay, drop, dup := c.delayMs, c.dropPct, c.dupPct
 	r1, r2, r3, r4 := c.rng.Intn(100), c.rng.Intn(100), c.rng.Intn(delay+1), c.rng.Intn(delay+1)
 	c.mu.Unlock()
@@ -237,16 +251,17 @@ func (c *cluster) forward(from, to int, rpc raft.RPC) {
 	if back {
 		return // response lost
 	}
-	time.Sleep(time.Duration(r4) * time.Millisecond)
+	time.Sleep(time.Duration(r4+hold) * time.Millisecond)
 	rpc.Respond(resp, err)
 }
 
 func (c *cluster) noteSender(from int, term uint64) {
 	k := fmt.Sprintf("S %d %d", from, term)
+	now := c.h.now()
 	c.h.mu.Lock()
 	if !c.h.seenS[k] {
 		c.h.seenS[k] = true
-		c.h.lines = append(c.h.lines, k)
+		c.h.lines = append(c.h.lines, fmt.Sprintf("%s %d", k, now))
 	}
 	c.h.mu.Unlock()
 }
@@ -260,12 +275,16 @@ func (c *cluster) startNode(n *cnode) {
 			c.h.rec("N %d %d %d", id, life, b2i(v))
 		}
 	}(n.notify, n.id, n.life)
-	_, n.trans = raft.NewInmemTransportWithTimeout(n.addr, 80*time.Millisecond)
+	tmo := 80 * time.Millisecond
+	if n.slowClock {
+		tmo = 800 * time.Millisecond
+	}
+	_, n.trans = raft.NewInmemTransportWithTimeout(n.addr, tmo)
 	for _, o := range c.nodes {
 		if o == nil || o.id == n.id {
 			continue
 		}
-		_, px := raft.NewInmemTransportWithTimeout(raft.ServerAddress(fmt.Sprintf("p%d-%d-%d", n.id, o.id, n.life)), 80*time.Millisecond)
+		_, px := raft.NewInmemTransportWithTimeout(raft.ServerAddress(fmt.Sprintf("p%d-%d-%d", n.id, o.id, n.life)), tmo)
 		n.trans.Connect(o.addr, px)
 		go c.proxyLoop(n.id, o.id, px)
 	}
@@ -350,6 +369,7 @@ func (c *cluster) callWith(n *cnode, kind string, fn func(r *raft.Raft) error) {
 			case "b":
 				out.code = errCode(r.Barrier(20 * time.Millisecond).Error())
 			case "v":
+				out.idx = r.CurrentTerm() // the caller's term when the call is made
 				out.code = errCode(r.VerifyLeader().Error())
 			default:
 				out.code = errCode(fn(r))
@@ -412,12 +432,16 @@ func runClusterCase(rng *rand.Rand, thorough bool, out *bufio.Writer, st *stats,
 	if os.Getenv("VERIF_TRACE") != "" {
 		fmt.Fprintln(os.Stderr, "case", caseNo)
 	}
+	if rng.Intn(6) == 0 {
+		runVerifyLitmus(rng, out, st, caseNo)
+		return
+	}
 	h := &hist{t0: time.Now(), seenS: map[string]bool{}}
 	nsrv := 3
 	if rng.Intn(3) == 0 {
 		nsrv = 5
 	}
-	c := &cluster{rng: rng, h: h, blocked: map[[2]int]bool{}, delayMs: 2}
+	c := &cluster{rng: rng, h: h, blocked: map[[2]int]bool{}, holdMs: map[[2]int]int{}, delayMs: 2}
 	_, c.inj = raft.NewInmemTransportWithTimeout("inj", 80*time.Millisecond)
 	mono := rng.Intn(3) == 0
 	for i := 1; i <= nsrv; i++ {
@@ -611,3 +635,135 @@ func runClusterCase(rng *rand.Rand, thorough bool, out *bufio.Writer, st *stats,
 }
 
 func (c *cluster) startNodeP(n *cnode) { c.startNode(n) }
+
+// runVerifyLitmus: the two schedules under which VerifyLeader could succeed on a superseded leader
+// (C09).  Server 1 has a slow clock (long timeouts) and is the leader.
+//
+//	variant A (non-voters): 5 servers, 4 and 5 demoted; {1,4,5} cut off from {2,3}; 2 and 3 elect a
+//	  leader and commit; VerifyLeader on 1 while only the non-voters answer it.
+//	variant B (stale acknowledgement): 3 servers; a heartbeat answer from 2 to 1 is held in the
+//	  network; 1 is cut off; 2 and 3 elect a leader and commit; VerifyLeader on 1; the held answer
+//	  arrives afterwards.
+func runVerifyLitmus(rng *rand.Rand, out *bufio.Writer, st *stats, caseNo int) {
+	h := &hist{t0: time.Now(), seenS: map[string]bool{}}
+	variantA := rng.Intn(2) == 0
+	nsrv := 3
+	if variantA {
+		nsrv = 5
+	}
+	c := &cluster{rng: rng, h: h, blocked: map[[2]int]bool{}, holdMs: map[[2]int]int{}, delayMs: 1, litmus: true}
+	_, c.inj = raft.NewInmemTransportWithTimeout("inj", 800*time.Millisecond)
+	c.nodes = []*cnode{nil}
+	var cfg raft.Configuration
+	for i := 1; i <= nsrv; i++ {
+		n := &cnode{id: i, addr: addrOf(i), st: &cstore{InmemStore: raft.NewInmemStore()}, snaps: &snapStore{c: &ctl{failAt: -1, crashAt: -1}}, slowClock: i == 1}
+		c.nodes = append(c.nodes, n)
+		cfg.Servers = append(cfg.Servers, raft.Server{Suffrage: raft.Voter, ID: sidOf(i), Address: n.addr})
+	}
+	h.rec("C %d 0", nsrv)
+	for _, n := range c.nodes[1:] {
+		c.startNode(n)
+	}
+	_ = c.nodes[1].r.BootstrapCluster(cfg).Error()
+	// make 1 the leader: the others' elections cannot win while 1 campaigns first?  Not guaranteed;
+	// wait for any leader, then transfer leadership to 1.
+	time.Sleep(1500 * time.Millisecond)
+	for try := 0; try < 5; try++ {
+		l := c.leader()
+		if l == nil {
+			time.Sleep(300 * time.Millisecond)
+			continue
+		}
+		if l.id == 1 {
+			break
+		}
+		_ = l.r.LeadershipTransferToServer(sidOf(1), addrOf(1)).Error()
+		time.Sleep(500 * time.Millisecond)
+	}
+	l := c.leader()
+	if l == nil || l.id != 1 {
+		st.Hist["verify-litmus-setup-failed"]++
+	} else {
+		c.apply(l, "a")
+		time.Sleep(100 * time.Millisecond)
+		if variantA {
+			_ = l.r.DemoteVoter(sidOf(4), 0, time.Second).Error()
+			_ = l.r.DemoteVoter(sidOf(5), 0, time.Second).Error()
+			time.Sleep(200 * time.Millisecond)
+			c.mu.Lock()
+			for _, a := range []int{1, 4, 5} {
+				for _, b := range []int{2, 3} {
+					c.blocked[[2]int{a, b}] = true
+					c.blocked[[2]int{b, a}] = true
+				}
+			}
+			c.mu.Unlock()
+			// 2 and 3 elect (their timeouts are 100 ms) and commit; 1's lease is 300 ms
+			time.Sleep(time.Duration(150+rng.Intn(120)) * time.Millisecond)
+			for k := 2; k <= 3; k++ {
+				if c.nodes[k].r.State() == raft.Leader {
+					c.apply(c.nodes[k], "a")
+				}
+			}
+			c.apply(c.nodes[1], "v")
+			st.Hist["verify-litmus-nonvoters"]++
+		} else {
+			// hold every answer travelling from 2 to 1 for a while, then cut 1 off (requests only)
+			hold := 200 + rng.Intn(150)
+			c.mu.Lock()
+			c.holdMs[[2]int{2, 1}] = hold
+			c.mu.Unlock()
+			time.Sleep(time.Duration(20+rng.Intn(30)) * time.Millisecond) // some heartbeat is now in flight
+			c.mu.Lock()
+			for _, b := range []int{2, 3} {
+				c.blocked[[2]int{1, b}] = true
+			}
+			c.blocked[[2]int{3, 1}] = true
+			c.mu.Unlock()
+			// 2 and 3 stop hearing from 1, elect and commit
+			for w := 0; w < hold-40; w += 10 {
+				time.Sleep(10 * time.Millisecond)
+				for k := 2; k <= 3; k++ {
+					if c.nodes[k].r.State() == raft.Leader {
+						c.apply(c.nodes[k], "a")
+						w = hold
+						break
+					}
+				}
+			}
+			c.apply(c.nodes[1], "v")
+			st.Hist["verify-litmus-held-ack"]++
+		}
+	}
+	time.Sleep(1500 * time.Millisecond)
+	c.mu.Lock()
+	c.blocked = map[[2]int]bool{}
+	c.holdMs = map[[2]int]int{}
+	c.mu.Unlock()
+	h.rec("Q %d", h.now())
+	time.Sleep(12 * time.Second)
+	for k := 0; k < 3; k++ {
+		if l := c.leader(); l != nil {
+			c.apply(l, "a")
+		}
+		time.Sleep(300 * time.Millisecond)
+	}
+	time.Sleep(2 * time.Second)
+	c.wg.Wait()
+	c.dump("final")
+	c.mu.Lock()
+	c.stopped = true
+	c.mu.Unlock()
+	for _, n := range c.nodes[1:] {
+		if n.up {
+			c.crash(n)
+		}
+	}
+	h.mu.Lock()
+	lines := h.lines
+	h.mu.Unlock()
+	fmt.Fprintf(out, "CL %d %d\n", caseNo, nsrv)
+	fmt.Fprintln(out, strconv.Itoa(len(lines))+" ; "+strings.Join(lines, " ; "))
+	st.Cases++
+	st.Distinct++
+}
